@@ -38,7 +38,8 @@ CHECK = {
         "depth bound per configuration as reported; 'fixpoint:<cfg>' tags mark configurations whose "
         "frontier emptied before the bound",
     ],
-    "bounds": {"quick": {"max_primaries": 3,
+    "bounds": {"reset_epilogue": "every bookkeeping state reached for the first time is also abandoned: Stepper::reset_state(), slots and counters must be clean, one fresh single-primary event is transported under a new ledger",
+               "quick": {"max_primaries": 3,
                          "depth": {"S1,Q1|2 (5 orders)": 5, "S1,Q16 (5 orders)": 4,
                                    "S2,Q2 (none,init_charge,reindex_status)": 4,
                                    "S2,Q4 (none,init_charge)": 2, "S3,Q3 (none)": 2}},
